@@ -59,7 +59,7 @@ STATIC = {
     "C12": ("full code space x expressions x 4 modes; windows for adjacency / case-folding history; escapes", "integer comparisons; cross-mode for Unicode rules", "exploration"),
     "C13": ("engine 4 modes, rejected cases, every start position", "position / labels / rendering invariants (either line convention)", "exploration"),
     "C14": ("text x offset x span; query orders; two-text histories", "newline arithmetic", "exploration"),
-    "C15": ("forked histories (3 pools) + sched + two-state bfs + free-running", "isolated / sequential / full-copy reference", "model_checking"),
+    "C15": ("forked histories (4 pools) + sched + two-state bfs + free-running", "isolated / sequential / full-copy reference", "model_checking"),
     "C16": ("engine 4 modes x every k", "suffix parse shifted", "exploration"),
     "C17": ("document / expression enumeration, second parse of the same text", "json.loads; reference evaluator", "exploration"),
     "C18": ("table x stream enumeration, one parser instance per table", "binding-power transcription + brute force", "model_checking"),
